@@ -59,6 +59,17 @@ def _signal(case, chroms):
                 v[t * W:(t + 1) * W] = 0      # silent tiles so that something passes the threshold
             elif rs.rand() < 0.3:
                 v[t * W:(t + 1) * W] = (rs.rand(W) < 0.05)
+        # tiles whose whole signal is one tall spike sitting exactly on the first / last base of the centred out_window, or on the
+        # base just outside it: a filter window that is off by one base reads them the other way round
+        O = case["out_window"]
+        left = (W - O) // 2
+        for t in range(len(s) // W):
+            r = rs.rand()
+            if r < 0.25 and O <= W:
+                v[t * W:(t + 1) * W] = 0
+                pos = [left, left + O - 1, left - 1, left + O][int(rs.randint(0, 4))]
+                if 0 <= pos < W:
+                    v[t * W + pos] = 40 + int(rs.randint(0, 20))
         out[n] = v
     return out
 
@@ -288,8 +299,21 @@ def strategy(draw, max_loci=60):
     if draw(st.integers(0, 3)) == 0:
         case["chroms"] = sorted(draw(st.sets(st.integers(0, nchr - 1), min_size=1, max_size=nchr)))
     case["earlier_call_other_loci"] = draw(st.integers(0, 3)) == 0
-    if draw(st.integers(0, 14)) == 0:
+    if draw(st.integers(0, 9)) == 0:
         case["n_jobs2"] = draw(st.sampled_from([2, 3, 4]))
+        if draw(st.integers(0, 3)) != 3:
+            # a comparison that can tell: several chromosomes in ascending size (any re-ordering of the per-chromosome work shows),
+            # few inputs and many same-GC tiles, so that which of the eligible tiles are drawn depends on the seeded shuffle alone
+            nchr2 = draw(st.integers(2, 3))
+            case["blocks"] = sorted(draw(st.integers(8, 30)) for _ in range(nchr2))
+            case["tails"] = [draw(st.integers(0, W - 1)) for _ in range(nchr2)]
+            case["gc_levels"] = draw(st.sampled_from([[0.5], [0.4, 0.5], [0.3, 0.4, 0.5]]))
+            case["gc_bin_width"] = draw(st.sampled_from([0.1, 0.05, 0.08]))
+            case["loci"] = [[draw(st.integers(0, nchr2 - 1)), s_, s_ + draw(st.integers(1, W))]
+                            for s_ in [draw(st.integers(0, case["blocks"][0] * W - 1)) for _ in range(draw(st.integers(2, 8)))]]
+            case.pop("block_gc", None)
+            case.pop("chroms", None)
+            case["n_runs"] = draw(st.integers(0, 1))
     return case
 
 
